@@ -9,7 +9,7 @@ from pyasn1.codec.der import encoder as der_encoder
 from props.common import *
 
 BOUNDS = ("catalogue U_Q/U_T with the value ranges of C01; encoder/decoder pairs (DER,DER) (DER,CER) (DER,BER) (CER,CER) (CER,BER); "
-          "long strings: OCTET STRING / UTF8String / BIT STRING of 999, 1000, 1001, 2001 octets (content concrete, one symbolic octet)")
+          "long strings: OCTET STRING / UTF8String / [3] EXPLICIT IA5String / [5] IMPLICIT BIT STRING / records holding them, of 999, 1000, 1001, 2001 octets (content concrete, one symbolic octet)")
 OUTSIDE = "REAL from floats / base 10; strings between 5 and 998 octets; schemas outside the catalogue"
 
 DECODERS = {"der": der_decoder, "cer": cer_decoder, "ber": ber_decoder}
@@ -52,6 +52,10 @@ def long_strings(kind, size, x, pos, der):
         t = T("STR:UTF8")
     elif kind == 2:
         t = T("STR:IA5").tagged(("E", "C", 3))
+    elif kind == 4:
+        t = T("BITS").tagged(("I", "C", 5))
+    elif kind == 5:
+        t = T("SEQ", comps=[("b", T("BITS").tagged(("I", "C", 0)), "req", None), ("s", T("STR:UTF8").tagged(("I", "C", 1)), "opt", None)])
     else:
         t = T("SEQ", comps=[("s", T("OCTS").tagged(("I", "C", 0)), "req", None), ("i", T("INT"), "req", None)])
     n = [999, 1000, 1001, 2001][size]
@@ -60,6 +64,13 @@ def long_strings(kind, size, x, pos, der):
         raise Skip()
     body = bytes([(i * 7 + 3) % 120 + 1 for i in range(p)]) + bytes([x]) + bytes([(i * 5 + 1) % 120 + 1 for i in range(n - p - 1)])
     av = {"s": body, "i": 5} if kind == 3 else body
+    if kind >= 4:
+        # BIT STRING contents of this size as one symbolic integer are beyond the engine's integer model: all octets concrete here
+        body = bytes([(i * 7 + 3) % 120 + 1 for i in range(n)])
+    if kind == 4:
+        av = (n * 8 - 3, int.from_bytes(body, "big") // 8)
+    elif kind == 5:
+        av = {"b": (n * 8 - 5, int.from_bytes(body, "big") // 32), "s": body}
     v = build(t, av)
     if der:
         return _decode_all(t, der_encoder.encode(v), ("der", "cer", "ber"), av)
@@ -70,6 +81,6 @@ OBLIGATIONS = []
 for e in all_entries():
     OBLIGATIONS.append(entry_obl("rt_der", rt_der, e))
     OBLIGATIONS.append(entry_obl("rt_cer", rt_cer, e))
-OBLIGATIONS.append(Obl("long_strings", long_strings, {"kind": I(0, 3), "size": I(0, 3), "x": I(0, 127), "pos": I(0, 2), "der": B},
-                       shards=[{"kind": C(k), "der": C(d)} for k in range(4) for d in (False, True)], budget=120, per_path=60,
+OBLIGATIONS.append(Obl("long_strings", long_strings, {"kind": I(0, 5), "size": I(0, 3), "x": I(0, 127), "pos": I(0, 2), "der": B},
+                       shards=[{"kind": C(k), "der": C(d)} for k in range(6) for d in (False, True)], budget=120, per_path=60,
                        doc="strings of 999/1000/1001/2001 octets through DER and CER and every wider decoder"))
